@@ -5,7 +5,11 @@ use serde_json::{json, Value};
 use std::collections::BTreeMap;
 use std::path::PathBuf;
 
-pub const VERIF: &str = "/verif";
+/// Root of the verification tree (evidence/, replays/, KNOWN_FINDINGS.jsonl). `VERIF_ROOT`
+/// overrides it for scratch copies of the harness.
+pub fn verif_root() -> String {
+	std::env::var("VERIF_ROOT").unwrap_or_else(|_| "/verif".to_owned())
+}
 
 #[derive(Clone, Debug)]
 pub struct Violation {
@@ -29,7 +33,7 @@ pub struct Known {
 }
 
 pub fn load_known() -> Vec<Known> {
-	let p = format!("{VERIF}/KNOWN_FINDINGS.jsonl");
+	let p = format!("{}/KNOWN_FINDINGS.jsonl", verif_root());
 	let Ok(text) = std::fs::read_to_string(&p) else { return vec![] };
 	let mut out = Vec::new();
 	for line in text.lines() {
@@ -139,7 +143,7 @@ impl Report {
 			"wall_s": wall,
 			"violations": unknown.len(),
 		});
-		let dir = PathBuf::from(format!("{VERIF}/evidence"));
+		let dir = PathBuf::from(format!("{}/evidence", verif_root()));
 		let _ = std::fs::create_dir_all(&dir);
 		let path = dir.join(format!("{}.json", self.property));
 		let tmp = dir.join(format!("{}.json.tmp", self.property));
@@ -163,7 +167,7 @@ impl Report {
 		if unknown.is_empty() {
 			return 0;
 		}
-		let rdir = PathBuf::from(format!("{VERIF}/replays"));
+		let rdir = PathBuf::from(format!("{}/replays", verif_root()));
 		let _ = std::fs::create_dir_all(&rdir);
 		// group by class: one replay file per class (first = smallest case found first)
 		let mut by_class: BTreeMap<&str, Vec<&Violation>> = BTreeMap::new();
